@@ -19,7 +19,7 @@ DECIDING = ["new.invariant", "rebuild", "totals"]
 FLOORS = {"quick": {"new.invariant": 300000, "rebuild": 100000, "totals": 100000},
           "thorough": {"new.invariant": 5 * 10**6, "rebuild": 2 * 10**6, "totals": 2 * 10**6}}
 REQUIRED_HOOKS = ["Duration.__new__"]
-TECHNIQUE = "class-invariant contract on Duration.__new__ (every Duration created anywhere) against exact integer arithmetic on the constructor arguments"
+TECHNIQUE = "class-invariant contract on Duration.__new__ (every Duration created anywhere) against exact integer arithmetic on the constructor arguments; workloads include years/months cancelled by opposite days"
 LEVEL_TEXT = ("every Duration constructed (directly, by operators, by negation, by the rebuild) is checked against the native "
               "timedelta of the same arguments and against the canonical signed breakdown computed with integers; inputs cover "
               "mixed-sign tuples, cancellations and sub-second negatives inside the float-exact range; held on what was observed")
